@@ -1363,7 +1363,7 @@ class Executor(object):
         if c is not None and not (q in self.inline):
             self.stats.contracts_used.add(target_q)
             return c.apply(self, st, recv, [bound[n] for n in names], exact=exact)
-        if q in self.inline or fi.nstmts() <= 0 or (via_property and fi.nstmts() <= 6) or all(isinstance(b, ast.Pass) for b in fi.body()):
+        if q in self.inline or fi.nstmts() <= 0 or (via_property and fi.nstmts() <= 9) or all(isinstance(b, ast.Pass) for b in fi.body()):
             return self.inline_call(st, fi, recv, names, bound)
         self._undecided("call to %s: no contract and not inlinable" % q)
 
